@@ -31,7 +31,9 @@ Ops == {"create", "create_key_pair", "register", "derive_key", "locate", "get", 
         "encrypt_gcm",        \* Encrypt in an authenticated mode: the authentication tag is data of the response
         "discover_versions", "query"}      \* KMIPProxy-level operations: the result object carries status / reason / message
 \* "failed_nomsg": Operation Failed with a reason and NO Result Message (the message is optional in the protocol)
-Resps == {"success", "failed", "failed_noop", "failed_nomsg", "undone", "nobatch", "wrongop", "garbage", "empty"}
+\* "short_struct": a success response whose last items are missing while the inner structures still announce their full
+\* length (the frame length is consistent with what is sent): it cannot be decoded, whatever a lenient reader makes of it
+Resps == {"success", "failed", "failed_noop", "failed_nomsg", "undone", "nobatch", "wrongop", "garbage", "empty", "short_struct"}
 Chunks == {"whole", "split_header", "bytewise", "eof_in_header", "eof_in_body"}
 Reasons == {"ITEM_NOT_FOUND", "PERMISSION_DENIED", "GENERAL_FAILURE", "CRYPTOGRAPHIC_FAILURE", "INVALID_FIELD"}
 
